@@ -22,7 +22,7 @@ func init() {
 	Register("C11", &CheckInfo{
 		Fn: checkC11, Level: "model_checking",
 		Rule: "slash monitor at every transition in which a dispute becomes fully funded: total loss of the report's backers (delegations on every validator + unbonding entries) == category share (1%/5%/100%) of power*1e6 of the report the reporter really submitted, each backer within one unit of its proportional share, dispute account +slash, recorded per-backer origins sum to the slash, jail 0s/600s for warning/minor, the determined aggregate flagged, no slashing for a report that differs from the stored micro-report, expiry after one day moves no stake; evaluated on exhaustive DFS depth 4 (quick) / 5 (thorough) over {undelegate all/half/1 loya, selector undelegate, redelegate all/half, bonding-set change, Block 1s, Propose genuine x 3 categories x full/half/min/from-bond, Propose altered value/power/invented, AddFee rest/1/from-bond, Block 1d+1ms} after a real report in two validator-cap worlds, and on all <=k-deviation histories around the shared skeletons",
-		QuickBudget: 7 * time.Minute, ThoroughBudget: 15 * time.Minute,
+		QuickBudget: 10 * time.Minute, ThoroughBudget: 15 * time.Minute,
 	})
 }
 
